@@ -38,8 +38,14 @@ def callOk (name : String) (before after : List String) : Bool :=
   | none => ch.isEmpty
   | some (_, field) => ch.all (· == field)
 
-/-- `pair h1 h2`: the earlier result re-read after the later call -/
-def pairOk (h2 : String) (first again : String) (aliasesArg : Bool) : Bool :=
-  first == again || (isInPlace h2 && aliasesArg)
+/-- helpers whose RESULT is, by contract, a view of an argument: the view-returners `Drop` and `Chunk`
+and the in-place helpers, which return the argument they modified -/
+def returnsView (name : String) : Bool := name == "Drop" || name == "Chunk" || isInPlace name
+
+/-- `pair h1 h2`: the earlier result re-read after the later call.  It may differ only when the later
+call is an in-place helper AND the earlier helper returns a view of the modified argument by
+contract; a helper that is supposed to return fresh storage gets no such excuse. -/
+def pairOk (h1 h2 : String) (first again : String) (aliasesArg : Bool) : Bool :=
+  first == again || (isInPlace h2 && returnsView h1 && aliasesArg)
 
 end GoguVerif.Spec.C16
